@@ -14,7 +14,7 @@ pub fn spec(tier: Tier) -> RelSpec {
     let mk = |depth, sources: Vec<SrcKind>, max_joins| GenCfg { depth, sources, max_joins, letters: Letters::Naming };
     let cfgs = match tier {
         Tier::Quick => vec![mk(2, vec![SrcKind::OpenT, SrcKind::LetClosed, SrcKind::SubClosed, SrcKind::Literal], 1)],
-        Tier::Thorough => vec![mk(3, vec![SrcKind::OpenT, SrcKind::LetClosed, SrcKind::SubClosed, SrcKind::Literal], 2)],
+        Tier::Thorough => vec![mk(2, vec![SrcKind::OpenT, SrcKind::LetClosed, SrcKind::SubClosed, SrcKind::Literal, SrcKind::LetSorted], 2)],
     };
     RelSpec {
         property: "C05",
